@@ -34,9 +34,43 @@ type Event struct {
 }
 
 type recorder struct {
-	mu  sync.Mutex
-	f   *os.File
-	cur string
+	mu   sync.Mutex
+	f    *os.File
+	cur  string
+	hold bool    // verdict events of the running case are kept back until the case is known to be untainted
+	held []Event
+}
+
+// Hold starts keeping back verdict events (viol, done); Release writes or drops them.
+func (r *recorder) Hold() {
+	r.mu.Lock()
+	r.hold, r.held = true, nil
+	r.mu.Unlock()
+}
+
+func (r *recorder) Release(keep bool) (dropped int) {
+	r.mu.Lock()
+	held := r.held
+	r.hold, r.held = false, nil
+	r.mu.Unlock()
+	if !keep {
+		return len(held)
+	}
+	for _, e := range held {
+		r.emit(e)
+	}
+	return 0
+}
+
+func (r *recorder) verdict(e Event) {
+	r.mu.Lock()
+	if r.hold {
+		r.held = append(r.held, e)
+		r.mu.Unlock()
+		return
+	}
+	r.mu.Unlock()
+	r.emit(e)
 }
 
 func newRecorder(events, cur string) (*recorder, error) {
@@ -76,14 +110,14 @@ func (r *recorder) Violation(sig, what string, witness any) {
 	if err != nil {
 		b, _ = json.Marshal(map[string]string{"unmarshalable": err.Error()})
 	}
-	r.emit(Event{T: "viol", Sig: sig, What: what, Witness: b})
+	r.verdict(Event{T: "viol", Sig: sig, What: what, Witness: b})
 }
 func (r *recorder) Done(sp *Spec, sample any) {
 	var sb json.RawMessage
 	if sample != nil {
 		sb, _ = json.Marshal(sample)
 	}
-	r.emit(Event{T: "done", Case: sp.ID, Key: sp.Key(), Sample: sb})
+	r.verdict(Event{T: "done", Case: sp.ID, Key: sp.Key(), Sample: sb})
 }
 func (r *recorder) Exit(reason string, next int) { r.emit(Event{T: "exit", Reason: reason, Case: next}) }
 
